@@ -260,8 +260,19 @@ def case_stats(ctx, inp):
             if not ((math.isnan(got) and math.isnan(exp)) or (not math.isnan(exp) and abs(got - exp) <= 1e-9 * max(1.0, abs(exp)))):
                 ctx.fail(f"Series.{how}(ddof={ddof}, split_every={se}) differs from pandas", observed=got, expected=exp)
                 return
+            # the same column as a one-column frame (the array branch of Var.reduction_aggregate)
+            try:
+                gotf = float(getattr(d.to_frame("x"), how)(ddof=ddof, split_every=_se_py(se)).compute(scheduler="sync")["x"])
+            except Exception as e:
+                ctx.fail(f"DataFrame.{how}(ddof={ddof}, split_every={se}) raised {type(e).__name__}", observed=f"{type(e).__name__}: {e}"[:300])
+                return
+            if not ((math.isnan(gotf) and math.isnan(exp)) or (not math.isnan(exp) and abs(gotf - exp) <= 1e-9 * max(1.0, abs(exp)))):
+                ctx.fail(f"DataFrame.{how}(ddof={ddof}, split_every={se}) differs from pandas", observed=gotf, expected=exp)
+                return
             if math.isnan(exp):
                 ctx.branch("stats-var-nan")
+            if sum(c is not None for c in cells) == ddof and len(set(c for c in cells if c is not None)) > 1:
+                ctx.branch("stats-var-count-eq-ddof")
             if len(rcomb) > 1:
                 ctx.branch("stats-var-nested-combine")
         elif how == "nunique":
@@ -369,7 +380,11 @@ def gen_stats(rng):
         cells = cells + [rng.randint(-2, 4)]        # pandas/dask describe of an all-NA float column: covered by the api section
     n = len(cells)
     lens = U.gen_lens(rng, n, 5) if rng.random() < 0.65 else U.gen_lens(rng, n, 11)
-    return {"how": how, "cells": cells, "lens": lens, "se": rng.choice(SES), "ddof": rng.choice([1, 1, 0, 2]),
+    ddof = rng.choice([1, 1, 0, 2])
+    nvalid = sum(c is not None for c in cells)
+    if how in ("var", "sem") and rng.random() < 0.3:
+        ddof = max(0, min(3, nvalid - rng.choice([0, 0, 1])))      # the boundary count == ddof (NaN in pandas) and one above it
+    return {"how": how, "cells": cells, "lens": lens, "se": rng.choice(SES), "ddof": ddof,
             "dropna": rng.random() < 0.5, "batch": rng.choice([1, 2, 2, 3]), "known": rng.random() < 0.7}
 
 
